@@ -376,6 +376,73 @@ Theorem C06_tree_write_atomic : forall n m h l, csr_dom n -> csr_widths n ->
 Proof. intros n m h l Hd Hw Hm Hh Hl. exact (tree_write_atomic n h l (tree_ok_intro n m h l Hd Hw Hm Hh Hl)). Qed.
 Print Assumptions C06_tree_write_atomic.
 
+(* ---- against ONE multiplexer, literally ----
+   flat_reg i r = the register as a flat multiplexer would hold it (range [i_start, i_end), same width and
+   access); flat_is ids tr = the root trace as that multiplexer's input sequence (same bus signals, same
+   register values). *)
+
+(* every trace: any multiplexer cF holding the register at its reported range shows, at that position, the
+   strobes the tree's register shows, cycle by cycle *)
+Theorem C06_tree_strobes_equal_flat_mux : forall n m h l, csr_dom n -> csr_widths n ->
+  csr_map n = Ok m -> csr_hw n = Ok h -> all_resources m = Ok l ->
+  forall i, In i l ->
+  exists L k r, reg_at (csr_aw n) h i L k r /\
+    forall cF idsF kF, nth_error (Mux.c_regs cF) kF = Some (flat_reg i r) ->
+    forall tr, in_range (csr_aw n) tr -> forall t b rv, nth_error tr t = Some (b, rv) ->
+    exists rd los lo, nth_error (csr_run h (cinit h) tr) t = Some (rd, los) /\ In lo los /\
+      lo_id lo = i_res i /\
+      nth_error (Mux.o_rstb (Mux.out cF (st_at cF (flat_is idsF tr) t) (flat_inp idsF (b, rv)))) kF
+        = Some (lo_rstb lo) /\
+      nth_error (Mux.o_wstb (Mux.out cF (st_at cF (flat_is idsF tr) t) (flat_inp idsF (b, rv)))) kF
+        = Some (lo_wstb lo).
+Proof. intros n m h l Hd Hw Hm Hh Hl. exact (tree_strobes_equal_flat n h l (tree_ok_intro n m h l Hd Hw Hm Hh Hl)). Qed.
+Print Assumptions C06_tree_strobes_equal_flat_mux.
+
+(* under the premises of C06_tree_read_atomic the root of the tree returns what a well-formed flat multiplexer
+   of the same data width returns, whose registers all start at reported first addresses *)
+Theorem C06_tree_read_equals_flat_mux : forall n m h l, csr_dom n -> csr_widths n ->
+  csr_map n = Ok m -> csr_hw n = Ok h -> all_resources m = Ok l ->
+  forall i L k r tr t0 t j b0 rv0 bt rvt cF idsF kF,
+  In i l -> reg_at (csr_aw n) h i L k r -> Mux.r_rd r = true -> in_range (csr_aw n) tr ->
+  nth_error tr t0 = Some (b0, rv0) -> r_stb b0 = true -> addr b0 = i_start i ->
+  (t0 <= t)%nat ->
+  (forall u bu rvu i', (t0 < u <= t)%nat -> nth_error tr u = Some (bu, rvu) -> r_stb bu = true ->
+                       In i' l -> addr bu <> i_start i') ->
+  nth_error tr t = Some (bt, rvt) -> r_stb bt = true -> addr bt = i_start i + j ->
+  0 <= j < i_end i - i_start i ->
+  wf_cfg cF -> Mux.c_dw cF = csr_dw n ->
+  nth_error (Mux.c_regs cF) kF = Some (flat_reg i r) -> nth_error idsF kF = Some (i_res i) ->
+  (forall rF, In rF (Mux.c_regs cF) -> exists i', In i' l /\ Mux.r_start rF = i_start i') ->
+  rdata_after h tr (S t) = rdata_at cF (flat_is idsF tr) (S t).
+Proof. intros n m h l Hd Hw Hm Hh Hl. exact (tree_read_equals_flat n h l (tree_ok_intro n m h l Hd Hw Hm Hh Hl)). Qed.
+Print Assumptions C06_tree_read_equals_flat_mux.
+
+(* under the premises of C06_tree_write_atomic the register receives, with its w_stb, the w_data it receives
+   on a well-formed flat multiplexer of the same data width whose registers all occupy reported ranges *)
+Theorem C06_tree_write_equals_flat_mux : forall n m h l, csr_dom n -> csr_widths n ->
+  csr_map n = Ok m -> csr_hw n = Ok h -> all_resources m = Ok l ->
+  forall i L k r tr t bt rvt (tj : Z -> nat) (dj : Z -> Z) cF idsF kF,
+  In i l -> reg_at (csr_aw n) h i L k r -> Mux.r_wr r = true -> in_range (csr_aw n) tr ->
+  nth_error tr t = Some (bt, rvt) -> w_stb bt = true -> addr bt = i_end i - 1 ->
+  (forall j, 0 <= j < i_end i - i_start i -> j * csr_dw n < Mux.r_width r ->
+     (tj j <= t)%nat /\
+     (exists bj rvj, nth_error tr (tj j) = Some (bj, rvj) /\ w_stb bj = true /\ addr bj = i_start i + j /\
+                     dj j = trunc (csr_dw n) (w_data bj)) /\
+     (forall u bu rvu, (tj j < u <= t)%nat -> nth_error tr u = Some (bu, rvu) ->
+                       ~ (w_stb bu = true /\ addr bu = i_start i + j))) ->
+  (forall j u bu rvu i', 0 <= j < i_end i - i_start i -> j * csr_dw n < Mux.r_width r ->
+     (tj j < u <= t)%nat -> nth_error tr u = Some (bu, rvu) -> w_stb bu = true ->
+     In i' l -> i_start i' <= addr bu < i_end i' -> i_start i <= addr bu < i_end i) ->
+  wf_cfg cF -> Mux.c_dw cF = csr_dw n -> nth_error (Mux.c_regs cF) kF = Some (flat_reg i r) ->
+  (forall rF, In rF (Mux.c_regs cF) ->
+     exists i', In i' l /\ Mux.r_start rF = i_start i' /\ Mux.r_stop rF = i_end i') ->
+  forall b' rv', nth_error tr (S t) = Some (b', rv') ->
+  exists rd los lo, nth_error (csr_run h (cinit h) tr) (S t) = Some (rd, los) /\ In lo los /\
+    lo_id lo = i_res i /\ lo_wstb lo = true /\
+    lo_wdata lo = Mux.elem_wdata cF (st_at cF (flat_is idsF tr) (S t)) (flat_reg i r).
+Proof. intros n m h l Hd Hw Hm Hh Hl. exact (tree_write_equals_flat n h l (tree_ok_intro n m h l Hd Hw Hm Hh Hl)). Qed.
+Print Assumptions C06_tree_write_equals_flat_mux.
+
 (* ---- non-vacuity: a 5-bit decoder (alignment 1, 8 data bits) over an anonymous 2-bit multiplexer A (a
    two-chunk 12-bit register 0 at [0,2) and an 8-bit register 1 at the explicit address 3) and, after
    align_to(4), a named 3-bit decoder whose named window at the explicit address 4 holds a 1-bit multiplexer B
@@ -520,4 +587,35 @@ Proof.
     destruct Eu as [-> | ->]; cbn in Hn; injection Hn as <- <-; cbn in Hs |- *; [discriminate|lia].
   - reflexivity.
   - exists rd, los, lo. repeat split; auto.
+Qed.
+
+(* the same three registers on ONE multiplexer at the reported ranges, driven by the same trace: r_data and
+   both strobes coincide with the tree's in every cycle of this (protocol-conforming) trace, and so does w_data
+   wherever w_stb is up.  Where w_stb is low, w_data is NOT the same (last conjunct): on the flat multiplexer
+   registers 0 and 2 share write-shadow chunks, so register 0's idle w_data shows the bytes written to register
+   2, which the separate multiplexers of the tree never mix.  Port-for-port equality of idle w_data is therefore
+   false; the theorems above claim w_data only together with w_stb. *)
+Definition fx_flat_regs : list Mux.reg :=
+  [ {| Mux.r_start := 0;  Mux.r_stop := 2;  Mux.r_width := 12; Mux.r_rd := true; Mux.r_wr := true |};
+    {| Mux.r_start := 3;  Mux.r_stop := 4;  Mux.r_width := 8;  Mux.r_rd := true; Mux.r_wr := true |};
+    {| Mux.r_start := 20; Mux.r_stop := 22; Mux.r_width := 12; Mux.r_rd := true; Mux.r_wr := true |} ].
+Definition fx_strobed (ws : list bool) (ds : list Z) : list Z :=
+  map (fun p : bool * Z => if fst p then snd p else 0) (combine ws ds).
+
+Example C06_flat_mux_nonvacuous :
+  exists cF h, Mux.mk_cfg 8 fx_flat_regs None = Some cF /\ csr_hw fx_tree = Ok h /\
+    map (fun o => (Mux.o_rdata o, Mux.o_rstb o, Mux.o_wstb o, fx_strobed (Mux.o_wstb o) (Mux.o_wdata o)))
+        (Mux.run cF (Mux.init cF) (flat_is [0; 1; 2] fx_tr)) =
+    map (fun o : Z * list lobs => (fst o, map lo_rstb (snd o), map lo_wstb (snd o),
+                                   fx_strobed (map lo_wstb (snd o)) (map lo_wdata (snd o))))
+        (csr_run h (cinit h) fx_tr) /\
+    map Mux.o_wdata (Mux.run cF (Mux.init cF) (flat_is [0; 1; 2] fx_tr)) =
+      [[0; 0; 0]; [0; 0; 0]; [0; 0; 0]; [0x34; 0; 0x34]; [0x34; 0; 0x34]; [0x534; 5; 0x534]; [0x534; 5; 0x534]] /\
+    map (fun o : Z * list lobs => map lo_wdata (snd o)) (csr_run h (cinit h) fx_tr) =
+      [[0; 0; 0]; [0; 0; 0]; [0; 0; 0]; [0; 0; 0x34]; [0; 0; 0x34]; [0; 0; 0x534]; [0; 0; 0x534]].
+Proof.
+  destruct (Mux.mk_cfg 8 fx_flat_regs None) as [cF|] eqn:Ec; [|vm_compute in Ec; discriminate].
+  destruct (csr_hw fx_tree) as [h|] eqn:Eh; [|vm_compute in Eh; discriminate].
+  exists cF, h. split; [reflexivity|]. split; [reflexivity|].
+  vm_compute in Ec. injection Ec as <-. vm_compute in Eh. injection Eh as <-. vm_compute. repeat split; reflexivity.
 Qed.
